@@ -130,7 +130,7 @@ const NAMES: [&str; 24] = [
     "Ledger", "Member", "Note", "Order", "Policy", "Quota", "Record", "Session", "Token", "Unit", "Vault", "Widget",
     "Zone",
 ];
-const CRATES: [&str; 7] = ["alpha", "beta-core", "gamma", "delta_x", "eps-i-lon", "codable", "alpha-ext"];
+const CRATES: [&str; 9] = ["alpha", "beta-core", "gamma", "delta_x", "eps-i-lon", "codable", "alpha-ext", "alpha/src/vendor/wire", "gamma/src/third_party/inner-kit"];
 const FILES: [&str; 9] = [
     "src/lib.rs",
     "src/model.rs",
@@ -187,7 +187,9 @@ impl Default for GenOpts {
 }
 
 pub fn crate_name_of(dir: &str) -> String {
-    dir.replace('-', "_")
+    // the crate is named after the directory above `src` (a crate may be vendored below another
+    // crate's `src` tree)
+    dir.rsplit('/').next().unwrap_or(dir).replace('-', "_")
 }
 
 thread_local! {
@@ -614,7 +616,31 @@ impl World {
         let mut w = self.clone();
         let n = w.items.len();
         for _ in 0..8 {
-            match r.below(7) {
+            match r.below(8) {
+                7 if n > 0 => {
+                    // rename to a name of the same length (the output keeps its size)
+                    let i = r.below(n as u64) as usize;
+                    if w.items[i].kind == Kind::Const || w.items[i].name.len() < 3 {
+                        continue;
+                    }
+                    let old = w.items[i].name.clone();
+                    let mut chars: Vec<char> = old.chars().collect();
+                    let last = chars.len() - 1;
+                    chars[last] = if chars[last] == 'x' { 'y' } else { 'x' };
+                    let new: String = chars.into_iter().collect();
+                    if w.items.iter().any(|it| it.name == new) {
+                        continue;
+                    }
+                    for it in w.items.iter_mut() {
+                        if it.name == old {
+                            it.name = new.clone();
+                        }
+                        for f in it.fields.iter_mut() {
+                            f.1.rename_ref(&old, &new);
+                        }
+                    }
+                    return (w, format!("same-length rename {old} -> {new}"));
+                }
                 0 => {
                     // add a struct referencing existing items
                     let names: Vec<String> =
@@ -760,11 +786,20 @@ impl World {
 }
 
 pub fn default_config(r: &mut Rng, lang: &str, omit_package: bool) -> String {
+    default_config_with(r, lang, omit_package, &[])
+}
+
+/// `mapped_names`: names of typeshared items that the configuration may also map (a type mapping
+/// overrides a typeshared type of the same name)
+pub fn default_config_with(r: &mut Rng, lang: &str, omit_package: bool, mapped_names: &[String]) -> String {
     let mut s = String::new();
     let maps = r.chance(1, 2);
     let mapping = |r: &mut Rng, target: &[&str]| -> String {
         let mut m = String::new();
         let mut keys: Vec<&str> = vec!["Url", "Uuid", "Instant"];
+        for n in mapped_names.iter().take(2) {
+            keys.push(n.as_str());
+        }
         r.shuffle(&mut keys);
         for k in keys.iter().take(r.range(1, 3) as usize) {
             m.push_str(&format!("\"{k}\" = \"{}\"\n", r.pick(target)));
